@@ -38,6 +38,8 @@ def make_recording():
             def __init__(self, *a, **k):
                 super().__init__(*a, **k)
                 self.log = []
+                # the symbol type this engine was constructed for (CasADi engines)
+                self.requested = (a[0] if a else k.get("sym_type", "SX")) if base is Cs else None
 
             @property
             def nodes(self):
@@ -107,7 +109,7 @@ def run_C13(ctx):
     distinct = set()
     try:
         # ---------------- selection histories vs the model ----------------
-        bad_names = ["foo", "", "num", "py", "casa", " numpy", "casadi, numpy", "NumPy", "casadi ", "np"]
+        bad_names = ["foo", "", "num", "py", "casa", " numpy", "casadi, numpy", "NumPy", "casadi ", "np", "core", "__init__", "casadi.Engine", "numpy.Engine"]
         hist = []
         for _ in range(60 if quick else 600):
             h = []
@@ -249,8 +251,19 @@ def run_C13(ctx):
         from translator import forwarding
         for ni, net in enumerate(fam):
             pv = nets.random_params(net, rng)
+            def sym_types_of(engine_):
+                """wrong symbol types among the variables of the elements, for a CasADi engine built for one type"""
+                import casadi as cs_
+                bad_ = []
+                if getattr(engine_, "requested", None):
+                    for el_ in list(R.links.values()) + [o_ for o_ in R.origins.values() if o_.states]:
+                        for grp_ in (el_.states, el_.next_states, el_.actions, el_.disturbances):
+                            for nm_, x_ in (grp_ or {}).items():
+                                if isinstance(x_, (cs_.SX, cs_.MX)) and type(x_).__name__ != engine_.requested:
+                                    bad_.append(f"{nm_} of {el_.name} is {type(x_).__name__}")
+                return bad_
             for (mk_sel, mk_ex) in [(RecNp, RecCs), (RecCs, RecNp), (lambda: RecCs("MX"), RecNp), (RecNp, lambda: RecCs("MX")),
-                                    (RecNp, RecNp), (RecCs, RecCs)]:
+                                    (RecNp, RecNp), (RecCs, RecCs), (lambda: RecCs("MX"), RecCs), (RecCs, lambda: RecCs("MX"))]:
                 sel, ex = mk_sel(), mk_ex()
                 if not use_instance(sel, out, net.to_json()):
                     continue
@@ -273,6 +286,10 @@ def run_C13(ctx):
                     out["failures"].append({"key": "C13:explicit-unused", "net": net.to_json(), "what": "explicit engine evaluated nothing"})
                 if engines.get_current_engine() is not sel:
                     out["failures"].append({"key": "C13:step-writes-selection", "net": net.to_json(), "what": "the step changed the selection"})
+                for msg_ in sym_types_of(ex)[:1]:
+                    out["failures"].append({"key": "C13:symbol-type", "net": net.to_json(),
+                                            "what": f"explicit CasADi engine built for {ex.requested} (selected: a {type(sel).__name__}"
+                                                    f"{' built for ' + sel.requested if getattr(sel, 'requested', None) else ''}): {msg_}"})
                 want_np = "numpy" in type(ex).__mro__[1].__module__
                 for el in list(R.links.values()) + [o for o in R.origins.values() if o.states]:
                     for grp in (el.states, el.next_states):
@@ -289,6 +306,10 @@ def run_C13(ctx):
                     with np.errstate(all="ignore"):
                         R.net.step(**opts, **R.step_kwargs())
                     out["coverage"]["evaluations"] += 1
+                    for msg_ in sym_types_of(sel)[:1]:
+                        out["failures"].append({"key": "C13:symbol-type-selected", "net": net.to_json(),
+                                                "what": f"step without engine, selected CasADi engine built for {sel.requested} (another CasADi engine "
+                                                        f"built for {getattr(ex, 'requested', None)} exists): {msg_}"})
                     if ex.log or not sel.log:
                         out["failures"].append({"key": "C13:engine-remembered", "net": net.to_json(),
                                                 "what": f"selected {type(sel).__name__}; network stepped with an explicit {type(ex).__name__}, then "
